@@ -86,6 +86,22 @@ class Item:
 
 
 @symbol
+@dataclass(eq=False)
+class Kid:
+    """what an Item's `ref` points to in worlds where the registry of Item must be exactly one domain: same fields and
+    methods as far as conditions use them, but not an Item"""
+    p: Any = 1
+    q: Any = 1
+    s: Any = "ab"
+    flag: Any = True
+    tag: Any = None
+    p_ge, flagged, p_between, get_p, get_q = Item.p_ge, Item.flagged, Item.p_between, Item.get_p, Item.get_q
+
+    def __repr__(self):
+        return f"Kid<{self.tag}>"
+
+
+@symbol
 @dataclass(unsafe_hash=True)
 class VItem:
     """value equality (dataclass eq): two distinct objects with equal fields compare equal, yet they are two objects"""
@@ -300,7 +316,7 @@ class Made2(View):
         return f"Made2({self.a!r},{self.b!r})"
 
 
-CLASSES = {c.__name__: c for c in (Item, Other, Base, Sub, USub, Leaf, Hand, Holder, View, Made, Made2, Part, Rev, VItem, Dflt,
+CLASSES = {c.__name__: c for c in (Item, Kid, Other, Base, Sub, USub, Leaf, Hand, Holder, View, Made, Made2, Part, Rev, VItem, Dflt,
                                            Hand0)}
 
 
